@@ -91,6 +91,21 @@ func (p *pkg) eval(e ast.Expr) interface{} {
 				return ai - bi
 			}
 		}
+	case *ast.SelectorExpr: // time.Second etc. (nanoseconds)
+		if id, ok := v.X.(*ast.Ident); ok && id.Name == "time" {
+			switch v.Sel.Name {
+			case "Nanosecond":
+				return int64(1)
+			case "Microsecond":
+				return int64(1000)
+			case "Millisecond":
+				return int64(1000000)
+			case "Second":
+				return int64(1000000000)
+			case "Minute":
+				return int64(60000000000)
+			}
+		}
 	case *ast.CompositeLit:
 		var out []string
 		for _, el := range v.Elts {
@@ -389,6 +404,14 @@ func main() {
 			die("no keys listed in the LFSCONFIG section")
 		}
 		return "def docLfsconfigKeys : List Bytes := " + bytesList(keys)
+	})
+	// ---- tq (C06, C15)
+	for _, n := range []string{"defaultBatchSize", "baseRetryDelayMs", "defaultMaxRetries", "defaultMaxRetryDelay"} {
+		n := n
+		emit(n, func() string { return fmt.Sprintf("def %s : Nat := %d", n, tq.num(n)) })
+	}
+	emit("objectExpirationToTransferNs", func() string {
+		return fmt.Sprintf("def objectExpirationToTransferNs : Nat := %d", tq.num("objectExpirationToTransfer"))
 	})
 	// ---- lfshttp/client.go (C10)
 	lh := safeLoad(filepath.Join(repo, "lfshttp"))
